@@ -16,6 +16,17 @@ LG = "acryo/loader/_group.py"
 
 
 def anchors(a: Anchors):
+    # a loader stores what it was given and nothing computed from it (no remembered task graph that an in-place addition could outdate),
+    # and the lazily built arrays are named by dask from their content (two loaders never share a graph key)
+    a.state("loader_base_stores_options_only", "acryo/loader/_base.py", {"LoaderBase": ["_corner_safe", "_order", "_output_shape", "_scale", "class:group_by"]},
+            "LoaderBase stores interpolation order, scale, output shape and corner_safe only")
+    a.state("single_loader_stores_inputs_only", "acryo/loader/_loader.py", {"SubtomogramLoader": ["_image", "_molecules"]}, "a SubtomogramLoader adds its image and molecules only")
+    a.state("batch_loader_stores_inputs_only", "acryo/loader/_batch.py", {"BatchLoader": ["_images", "_molecules"]}, "a BatchLoader adds its images and molecules only")
+
+    def content_named(fn):
+        calls = [n for n in ast.walk(fn) if isinstance(n, ast.Call) and ast.unparse(n.func).replace(" ", "") == "da.from_delayed"]
+        return len(calls) == 1 and not any(k.arg == "name" for k in calls[0].keywords) and norm(ast.unparse(calls[0])) == "da.from_delayed(task,shape=shape,dtype=dtype)"
+    a.fact("task_arrays_named_by_content", "acryo/_dask.py", "DaskTaskList.asarrays", "da.from_delayed(task, shape=shape, dtype=dtype) without an explicit name", content_named)
     a.expr("splitter_sample_size", LM, "random_splitter",
            ("find", lambda n: isinstance(n, ast.Call) and ast.unparse(n.func) == "rng.choice", 0, "rng.choice size"),
            {"nmole": "Z"}, want="Z", post=lambda n: n.args[1])
